@@ -133,11 +133,14 @@ def call_under(ctx, g, clos, args):
     r = ex.call_closure(clos, args, s2, ctx.where)
     if r is None:
         # diverges whenever g holds
-        base.guard = b_and(base.guard, b_not(g))
+        base.add_guard(b_not(g))
         return None
     v, s2 = r
-    keep = State_like(base, b_not(g))
-    merged = X.merge_states([(g, s2), (b_not(g), keep)])
+    ng = b_not(g)
+    keep = base.fork(ng)
+    # fork() appends the conjunct object itself, so the exhaustive-join shortcut of merge_states applies
+    s2_is_plain = len(s2.conj) == len(base.conj) + 1
+    merged = X.merge_states([(s2.conj[len(base.conj)] if s2_is_plain else g, s2), (ng, keep)], base.conj, True)
     # guard of the merged state: the original guard minus the paths that diverged inside
     ctx.st = merged
     return v
@@ -353,10 +356,15 @@ def _saturating(ctx, a, b):
     r, f = ctx.ex.binop(op + 'WithOverflow', a, b, t)
     if f is False:
         return r
+    zi = is_zint(r)
     if not s:
         lim = CI((1 << w) - 1, w) if op == 'Add' else CI(0, w)
+        if zi:
+            lim = z3.IntVal(lim.v)
         return ite(f, lim, r)
     mx, mn = CI((1 << (w - 1)) - 1, w), CI(1 << (w - 1), w)
+    if zi:
+        mx, mn = z3.IntVal((1 << (w - 1)) - 1), z3.IntVal(-(1 << (w - 1)))
     # overflow direction: add overflows upward iff b >= 0 ; sub overflows upward iff b < 0
     bneg = ctx.ex.binop('Lt', b, CI(0, w), t)
     up = b_not(bneg) if op == 'Add' else bneg
@@ -369,7 +377,8 @@ def _saturating_neg(ctx, a):
     w, s = X.INT_TYPES[t]
     mn = CI(1 << (w - 1), w)
     ismin = ctx.ex.binop('Eq', a, mn, t)
-    return ite(ismin, CI((1 << (w - 1)) - 1, w), ctx.ex.unop('Neg', a, t, ctx.st))
+    mx = z3.IntVal((1 << (w - 1)) - 1) if is_zint(a) else CI((1 << (w - 1)) - 1, w)
+    return ite(ismin, mx, ctx.ex.unop('Neg', a, t, ctx.st))
 
 
 def popcount_term(x):
@@ -861,6 +870,12 @@ def _array_into_iter(ctx, v):
 
 @model(r'^<.* as std::iter::IntoIterator>::into_iter$')
 def _into_iter_identity(ctx, v):
+    if re.match(r'^<\[.*; \d+\] as ', ctx.callee):
+        return IterV(tuple((True, x) for x in v))
+    if re.match(r'^<std::vec::Vec<', ctx.callee) and isinstance(v, Seq):
+        return IterV(v.ents)
+    if re.match(r'^<&(mut )?std::vec::Vec<', ctx.callee):
+        return IterV(_entries_of_slice(ctx, v, True))
     if isinstance(v, (IterV, tuple)) or hasattr(v, 'is_iterator'):
         return v
     return X.NOT_HANDLED
